@@ -57,6 +57,10 @@ type Store[H header.Header[H]] struct {
 	tailHeader atomic.Pointer[H]
 	// contiguousHead is the highest contiguous header observed
 	contiguousHead atomic.Pointer[H]
+	// ptrMu orders the writes of the head and tail pointers to the datastore: whoever persists them
+	// (a flush with its batch, setTail, setHead) holds it from reading their in-memory values until
+	// they are written, so that the pointer written last is never an older one
+	ptrMu sync.Mutex
 	// pending keeps headers pending to be written in one batch
 	pending *batch[H]
 	// syncCh is a channel used to synchronize writes
@@ -383,6 +387,8 @@ func (s *Store[H]) setTail(ctx context.Context, write datastore.Write, to uint64
 		return fmt.Errorf("getting tail: %w", err)
 	}
 
+	s.ptrMu.Lock()
+	defer s.ptrMu.Unlock()
 	// set directly to `to`, avoiding iteration in recedeTail
 	s.tailHeader.Store(&newTail)
 	if err := writeHeaderHashTo(ctx, write, newTail, tailKey); err != nil {
@@ -560,6 +566,8 @@ func (s *Store[H]) flush(ctx context.Context, headers ...H) error {
 	// marshal and add to batch reference to the new head and tail
 	// the pointers are unset after the whole chain was deleted, while headers
 	// that were never contiguous with it can still await their write
+	s.ptrMu.Lock()
+	defer s.ptrMu.Unlock()
 	if head := s.contiguousHead.Load(); head != nil {
 		if err := writeHeaderHashTo(ctx, batch, *head, headKey); err != nil {
 			return err
